@@ -61,6 +61,8 @@ RULE = ("case = (ss clock 25k/33.3k/50k/100k[/250k] Hz, loosen_requirements, pro
 SIGS = ("OFF", "DETECT", "QUIET", "LFPS", "TSEQ", "TS1", "TS2", "IDLE", "U0", "LOOPBACK")
 REQUIRED_BINS = (
     ["sig_" + s for s in SIGS] + ["reset_in_" + s for s in SIGS] +
+    ["reset_in_%s_%s" % (s, c) for s in ("TS1", "TS2", "IDLE") for c in ("polling", "recovery")] +
+    ["reset_in_TS2_hot_reset", "reset_in_IDLE_hot_reset"] +
     ["u0_via_polling", "u0_via_recovery", "u0_via_hot_reset", "u0_loosened_ts1_instead_of_lfps", "u0_strict",
      "timeout_QUIET_rxdetect", "timeout_QUIET_inactive", "timeout_LFPS", "timeout_TS1_polling", "timeout_TS1_recovery",
      "timeout_TS2_polling", "timeout_TS2_recovery", "timeout_TS2_hot_reset", "timeout_IDLE_polling",
@@ -227,6 +229,8 @@ class Judge:
             if sig in SIGS:
                 if not prev_reset:
                     res.bin("reset_in_" + sig)
+                    if sig in ("TS1", "TS2", "IDLE"):
+                        res.bin("reset_in_%s_%s" % (sig, self.ctx))
             self.last_reset = {"cycle": k, "sig": sig, "next_sig": None, "burst": i["ts_burst_complete"],
                                "first": not prev_reset}
             for m in self.A:                 # ... but milestones of the reset cycle itself count in favour of the DUT
@@ -633,9 +637,12 @@ class Partner:
             self.watchdog = 400
 
         # warm-reset injection
-        if self.reset_at is None and r.random() < self.p_reset:
+        p_reset = self.p_reset
+        if sig == "IDLE" or (sig == "TS2" and prev == "IDLE"):
+            p_reset = max(0.15, 2 * p_reset)          # short states: make sure resets land in them often enough
+        if self.reset_at is None and r.random() < p_reset:
             if answers and r.random() < 0.4:
-                self.reset_at = answers[0] - r.choice([0, 0, 0, 0, 1, r.randint(0, 3)])
+                self.reset_at = answers[0] - r.choice([0, 0, 0, 0, 1, -1, -1, r.randint(0, 3)])     # -1: first cycle of the next state
                 if self.reset_at < 0:
                     self.reset_at = 0
                 what += "+reset@answer"
